@@ -8,7 +8,7 @@ from ..model import walk_local, AnalysisError
 from ..report import Ctx
 from ..engines import tables
 from ..engines.effects import Effects
-from ..engines.typecase import TypeCase, events_matching
+from ..engines.typecase import TypeCase, TCState, events_matching
 
 FN = "RelativeSequence.transpose"
 
@@ -82,7 +82,13 @@ def _check(ctx: Ctx) -> None:
                 and not any(isinstance(a, ast.While) for a in ancestors(n)):
             first_shift = n
             break
-    if first_shift is None:
+    # logic moved into a helper that receives the message: the per-kind counts above still see its writes, but the shape rules
+    # below (first shift, wrap loops, flag) are written for the in-line form and are not judged then
+    _tc0 = TypeCase(p, fi, {loop.target.id}, "NOTE_ON")
+    delegated = [c for c in ast.walk(loop) if isinstance(c, ast.Call) and _tc0._helper(c, TCState()) is not None]
+    if first_shift is None and delegated:
+        ctx.undetermined("SHIFT", f"{FN}: interval applied", f"the pitch is written inside `{short(delegated[0], 50)}`: in-line shape rules not judged")
+    elif first_shift is None:
         ctx.violation("SHIFT", f"{FN}: interval applied", function=FN, construct="no unconditional pitch shift by the interval found",
                       message="no `note += interval` outside the wrap loops", file=fi.file, node=loop)
     else:
@@ -164,7 +170,9 @@ def _check(ctx: Ctx) -> None:
         for n in walk_local(fi.node):
             if isinstance(n, ast.Assign) and any(isinstance(t, ast.Name) and t.id == flag for t in n.targets):
                 inside = any(isinstance(a, ast.While) and kinds.get(id(a)) in ("low", "high") for a in ancestors(n))
-                if isinstance(n.value, ast.Constant) and n.value.value is True:
+                if isinstance(n.value, ast.Constant) and n.value.value is True and delegated and not any(k in ("low", "high") for k in kinds.values()):
+                    ctx.undetermined("WRAP", f"{FN}: `{flag} = True`", "the wrap loops live in a helper: flag placement not judged")
+                elif isinstance(n.value, ast.Constant) and n.value.value is True:
                     ctx.check(inside, "WRAP", f"{FN}: `{flag} = True` at line offset inside a wrap loop", function=FN,
                               construct="returned flag set to True outside the octave wrap loops",
                               message="transpose would report an octave move although none was needed", file=fi.file, node=n)
